@@ -347,9 +347,16 @@ func ltScenario(e *p2pexec.Executor, r *gen.Rand, multi bool) {
 		if r.Chance(1, 8) {
 			s.op("pool up 0")
 		}
+		shortNow := r.Chance(1, 25)
+		if shortNow {
+			s.op("pool short 1") // environment assumption violated on purpose: model and code must still agree
+		}
 		res := s.op(fmt.Sprintf("lt %s %d %d %d %s %d %s", key, hasHeader, height, txCount, miner, r.Intn(p2pexec.NPeers), p2pexec.JoinOr(hashes, ",")))
 		out.Stat("lt_"+strings.Fields(res)[0], 1)
 		s.op("pool up 1")
+		if shortNow {
+			s.op("pool short 0")
+		}
 		if res == "panic" && r.Chance(1, 2) {
 			s.probe() // malformed input just went through the recover: is everything still alive?
 		}
@@ -414,11 +421,13 @@ func peerMsgScenario(e *p2pexec.Executor, r *gen.Rand, multi bool) {
 	for i := 0; i < 6+r.Intn(10); i++ {
 		switch r.Pick(3, 4, 2, 3, 1, 2, 2, 1) {
 		case 0:
-			switch r.Intn(4) {
+			switch r.Intn(5) {
 			case 0:
 				s.op("chain err")
 			case 1:
 				s.op("chain items 0")
+			case 2:
+				s.op("chain other")
 			default:
 				s.op(fmt.Sprintf("chain items %d", 1+r.Intn(2)))
 			}
@@ -540,11 +549,13 @@ func streamScenario(e *p2pexec.Executor, r *gen.Rand) {
 	for i := 0; i < 10+r.Intn(15); i++ {
 		switch r.Pick(2, 4, 3, 4, 3, 2, 2, 2) {
 		case 0:
-			switch r.Intn(3) {
+			switch r.Intn(4) {
 			case 0:
 				s.op("chain err")
 			case 1:
 				s.op("chain items 0")
+			case 2:
+				s.op("chain other")
 			default:
 				s.op(fmt.Sprintf("chain items %d", 1+r.Intn(3)))
 			}
